@@ -42,6 +42,9 @@ type Loaded struct {
 	parents map[ast.Node]ast.Node // parent links for module syntax
 	prog    *ssa.Program
 	ssaPkgs []*ssa.Package
+	// functions that were given back their pinned form before the rules run (identity.go)
+	Notes       []string
+	identityErr error
 }
 
 var wantedPkgs = []string{"p9", "vecnet", "linux", "internal", "fsimpl/localfs", "fsimpl/qids", "fsimpl/readdir",
@@ -122,6 +125,17 @@ func load(repo, config, fixture string) (*Loaded, error) {
 			if len(p.Syntax) == 0 && (w == "p9" || w == "vecnet" || w == "linux") {
 				return nil, fmt.Errorf("package %s has no files for %s", w, config)
 			}
+		}
+	}
+	if fixture == "" {
+		l.Notes = l.restoreIdentities()
+		if l.identityErr != nil {
+			// the trees were touched: load again and judge the program as it is written
+			fmt.Fprintln(os.Stderr, "note:", l.identityErr)
+			prev := skipIdentity
+			skipIdentity = true
+			defer func() { skipIdentity = prev }()
+			return load(repo, config, fixture)
 		}
 	}
 	for _, p := range l.modulePkgs() {
